@@ -22,7 +22,14 @@ func TestVerifC10Grid(t *testing.T) {
 			st.Class("with-" + sdesc)
 			desc += " " + sdesc
 		}
-		vfGridRun(rt, st, "C10", vfGridOpts{CCfgMod: mod, SCfgMod: smod, Note: desc})
+		opts := vfGridOpts{CCfgMod: mod, SCfgMod: smod, Note: desc}
+		if rapid.IntRange(0, 11).Draw(rt, "hello_golang") == 0 {
+			// the predefined ID that lets crypto/tls' own code build the hello, driven through a UConn like the others
+			opts.Src = &vfClientSrc{Kind: "golang", Name: "HelloGolang", ID: HelloGolang}
+			opts.CCfgMod = nil // (for this ID the Config IS the offer: the knobs a spec overrides would change it)
+			st.Class("source:HelloGolang")
+		}
+		vfGridRun(rt, st, "C10", opts)
 	})
 }
 
